@@ -86,6 +86,10 @@ def tasks(tier, seed, selftest=False):
             if not q:
                 S.append(dict(family="P:SW2+SW2+SW2", skeleton=(p, f), timebox=600))
                 S.append(dict(family="D3", skeleton=(p, f), timebox=300))
+    # inputs presented as free inputs (variables without update function)
+    for f in FINAL_ANY + FINAL_FRESH:
+        S.append(dict(family="S1C2", skeleton=(f,), timebox=8 if q else 600, tag="free-inputs", params={"free_inputs": True}))
+        S.append(dict(family="D3", skeleton=("bfs", f) if f in FINAL_ANY else (f,), timebox=8 if q else 600, tag="free-inputs", params={"free_inputs": True}))
     if not q:
         for f in ("fullbfs", "fmin", "block", "scc"):
             S.append(dict(family="U3", skeleton=(f,), timebox=600, cube_k=5, nbits=24))
